@@ -277,7 +277,9 @@ def compress_args(tier):
 
 
 def protocols(tier):
-    return [None, 0, 2, 4, 5] if tier == "quick" else [None, 0, 1, 2, 3, 4, 5]
+    # all of them in both tiers: protocols 0 and 1 have no header, so the first byte of the file is the
+    # first opcode of the top-level object and content sniffing sees a different prefix per (protocol, type)
+    return [None, 0, 1, 2, 3, 4, 5]
 
 
 def roundtrip(maker, compress, protocol, target, d, rename):
@@ -438,7 +440,7 @@ def plan(ctx):
     # value universe: reduced compress / protocol / target menu
     uc = []
     for c in (False, True, ("gzip", 3), "bz2", "xz", "lzma"):
-        for p in ((0, 2, 4) if tier == "quick" else (0, 1, 2, 3, 4, 5)):
+        for p in ((0, 1, 2, 4) if tier == "quick" else (0, 1, 2, 3, 4, 5)):
             uc.append((c, p, ("bytesio", ""), False))
     uc.append((True, None, ("path", ".pkl"), True))
     uni = universe_objects(tier, ctx.seed)
